@@ -89,6 +89,21 @@ def compare(ev, v, sl, itype, res, ctx):
         res.violation(f"C12/data-raised/{name}", f"reading event data raised {type(e).__name__}: {e}", wit)
 
 
+_BUSY = []
+
+
+def BUSY_MAP():
+    """A map with an entry for every (address, number): numbers name types 3, 4, 1 in turn."""
+    if not _BUSY:
+        from dali.device.helpers import DeviceInstanceTypeMapper
+        m = DeviceInstanceTypeMapper()
+        for a in range(64):
+            for i in range(32):
+                m.add_type(short_address=a, instance_number=i, instance_type=(3, 4, 1)[(a + i) % 3])
+        _BUSY.append(m)
+    return _BUSY[0]
+
+
 def run_space(desc, tier, seed, res):
     from dali import command, frame
     import dali.device.general as dg
@@ -119,6 +134,17 @@ def run_space(desc, tier, seed, res):
             if dt:
                 res.hit("decoded_under_device_type")
             sl = E.slice_event(v)
+            if sl is not None and sl["scheme"] != "device_instance" and (h + d) % 3 == 0:
+                # only the device/instance scheme consults the instance map: every other scheme decodes the same with a
+                # map full of entries (each naming another type) as without one
+                res.hit("map_ignored_by_other_schemes")
+                try:
+                    with_map = command.from_frame(frame.ForwardFrame(24, v), dev_inst_map=BUSY_MAP())
+                    if type(with_map) is not type(ev) or str(with_map) != str(ev) or with_map.frame != ev.frame:
+                        res.violation(f"C12/map-consulted/{sl['scheme']}", f"frame {v:#08x} ({sl['scheme']} scheme) decodes as {ev} without a map "
+                                      f"and as {with_map} with one; only device/instance frames depend on the map", {"frame": v})
+                except Exception as e:
+                    res.violation("C12/decode-raised", f"decoding {v:#08x} with a map raised {type(e).__name__}", {"frame": v, "tb": short_tb(e)})
             if sl is None:
                 res.hit("non_events")
                 if isinstance(ev, dg._Event):
